@@ -47,11 +47,15 @@ type c12Scenario struct {
 	Batch      bool
 	Inside     bool // the listener is created inside the session: its read loop and closer goroutine are tasks
 	Gate       bool // with SendNew: the accept filter parks the read loop on the late datagram until a task releases it
+	// QueuedWrite (batch mode): a datagram written on connection 0 during the setup is still in
+	// the write batch when the closes run: 1 = an ordinary one, 2 = one the kernel will refuse
+	// (70000 bytes), so that the final flush inside the socket's Close fails
+	QueuedWrite int
 }
 
 func (sc c12Scenario) String() string {
-	return fmt.Sprintf("accepted=%d unaccepted=%d lclose=%d cclose=%v accept=%d readers=%v sendNew=%v sendOld=%v batch=%v inside=%v gate=%v",
-		sc.Accepted, sc.Unaccepted, sc.LClose, sc.CClose, sc.Accept, sc.Readers, sc.SendNew, sc.SendOld, sc.Batch, sc.Inside, sc.Gate)
+	return fmt.Sprintf("accepted=%d unaccepted=%d lclose=%d cclose=%v accept=%d readers=%v sendNew=%v sendOld=%v batch=%v inside=%v gate=%v queuedWrite=%d",
+		sc.Accepted, sc.Unaccepted, sc.LClose, sc.CClose, sc.Accept, sc.Readers, sc.SendNew, sc.SendOld, sc.Batch, sc.Inside, sc.Gate, sc.QueuedWrite)
 }
 
 func genC12(t *rapid.T) c12Scenario {
@@ -72,6 +76,22 @@ func genC12(t *rapid.T) c12Scenario {
 	for i := 0; i < sc.Accepted; i++ {
 		sc.CClose = append(sc.CClose, rapid.SampledFrom([]int{0, 1, 1, 2}).Draw(t, "cclose"))
 		sc.Readers = append(sc.Readers, rapid.IntRange(0, 2).Draw(t, "reader") == 0)
+	}
+	if sc.Batch && sc.Accepted > 0 {
+		sc.QueuedWrite = rapid.IntRange(0, 2).Draw(t, "queuedWrite")
+		if sc.QueuedWrite == 2 {
+			// a failing flush also discards the rest of the batch, so nothing can be said about
+			// later datagrams: drive this one to "everything closed" and look at the socket only
+			sc.Accept, sc.SendNew, sc.SendOld, sc.Gate = 0, false, false, false
+			if sc.LClose == 0 {
+				sc.LClose = 1
+			}
+			for i := range sc.CClose {
+				if sc.CClose[i] == 0 {
+					sc.CClose[i] = 1
+				}
+			}
+		}
 	}
 	return sc
 }
@@ -122,6 +142,9 @@ func runC12(sc c12Scenario, ch sched.Chooser, c *ev.Case, logf func(string, ...a
 		}
 	}
 	before := udpGoroutines()
+	if c != nil && sc.QueuedWrite > 0 {
+		c.Label(fmt.Sprintf("queued-write/%d", sc.QueuedWrite))
+	}
 	lc := udp.ListenConfig{}
 	gateEntered := make(chan struct{}, 4)
 	gateRelease := make(chan struct{})
@@ -137,6 +160,10 @@ func runC12(sc c12Scenario, ch sched.Chooser, c *ev.Case, logf func(string, ...a
 	}
 	if sc.Batch {
 		lc.Batch = udp.BatchIOConfig{Enable: true, ReadBatchSize: 4, WriteBatchSize: 1, WriteBatchInterval: time.Millisecond}
+		if sc.QueuedWrite > 0 {
+			// writes stay in the batch for 400 ms unless eight of them accumulate
+			lc.Batch = udp.BatchIOConfig{Enable: true, ReadBatchSize: 4, WriteBatchSize: 8, WriteBatchInterval: 400 * time.Millisecond}
+		}
 	}
 	var ln net.Listener
 	var laddr *net.UDPAddr
@@ -189,6 +216,15 @@ func runC12(sc c12Scenario, ch sched.Chooser, c *ev.Case, logf func(string, ...a
 			}
 			accepted = append(accepted, cn)
 			accRemote = append(accRemote, r)
+		}
+		if sc.QueuedWrite > 0 {
+			p := []byte("queued")
+			if sc.QueuedWrite == 2 {
+				p = make([]byte, 70000)
+			}
+			if _, err := accepted[0].Write(p); err != nil {
+				return "VERIF-INFRA: queued write: " + err.Error()
+			}
 		}
 		for i := 0; i < sc.Unaccepted; i++ {
 			r := newRemote()
@@ -655,7 +691,7 @@ func (w *overlapWatcher) Pick(s *sched.Session, enabled []*sched.Task) *sched.Ta
 	return t
 }
 
-const ruleC12 = "setup on a real loopback socket (0..3 accepted and 0..2 un-accepted connections created by real datagrams, optional batch mode), then a controlled phase over the yield-instrumented udp/conn.go and packetio/buffer.go: tasks listener.Close (0..2 calls), conn.Close (0..2 calls per connection), Accept (0..2), conn.Read, datagrams from a new and from a known remote, in a rapid-drawn schedule; the listener's own read-loop and closer goroutines run free and are covered by the terminal-quiescence rule (two snapshots 1.5 ms apart with every goroutine parked); oracle: no Close stays blocked, Close returns nil, Accept fails once the listener is closed or its connection counts as accepted, reads of closed connections return; then, with real I/O: if the listener and all accepted connections are closed the port can be bound again and no goroutine of the package is left, otherwise every accepted unclosed connection still sends to and receives from its remote and an open listener still accepts; non-trivial = an Accept or a connection Close was scheduled inside the listener's Close; distinct by hash of scenario + step trace"
+const ruleC12 = "setup on a real loopback socket (0..3 accepted and 0..2 un-accepted connections created by real datagrams, optional batch mode, there optionally with a datagram - an ordinary one or one the kernel will refuse - still waiting in the write batch when the closes run), then a controlled phase over the yield-instrumented udp/conn.go and packetio/buffer.go: tasks listener.Close (0..2 calls), conn.Close (0..2 calls per connection), Accept (0..2), conn.Read, datagrams from a new and from a known remote, in a rapid-drawn schedule; the listener's own read-loop and closer goroutines run free and are covered by the terminal-quiescence rule (two snapshots 1.5 ms apart with every goroutine parked); oracle: no Close stays blocked, Close returns nil, Accept fails once the listener is closed or its connection counts as accepted, reads of closed connections return; then, with real I/O: if the listener and all accepted connections are closed the port can be bound again and no goroutine of the package is left, otherwise every accepted unclosed connection still sends to and receives from its remote and an open listener still accepts; non-trivial = an Accept or a connection Close was scheduled inside the listener's Close; distinct by hash of scenario + step trace"
 
 func TestC12Schedules(t *testing.T) {
 	r := ev.New("C12", "schedules", ruleC12)
